@@ -26,7 +26,7 @@ LAYOUT_KEYS = ("len_numeric_field", "spacer", "lhs_spacer", "data_width", "heade
 
 
 def oracle(case):
-    from checks.c11 import numeric_unit, text_unquotable, text_with_blanks
+    from checks.c11 import numeric_unit, text_hit_by_subs, text_unquotable, text_with_blanks
 
     out = Outcome()
     src = case["src"]
@@ -42,7 +42,7 @@ def oracle(case):
             out.rejected = True
             out.cls("unreadable")
             return out
-        if text_unquotable(las):
+        if text_unquotable(las) or text_hit_by_subs(las):
             out.excluded = True
             out.cls("excluded-open-finding")
             return out
